@@ -39,6 +39,12 @@ type Tap struct {
 	// non-nil error is returned to the stack from WritePacket (a transient
 	// transmit fault of the device) and the frame is recorded as Refused
 	Refuse func(f Frame) *tcpip.Error
+	// PadIn > 0: every IPv4 / IPv6 packet handed to the stack (Inject*, and the wire
+	// between two stacks) carries that many trailing bytes beyond the datagram, as a
+	// link that pads short frames or appends a trailer does; with PadMin > 0 packets
+	// are padded up to that length instead (Ethernet: 46)
+	PadIn  int
+	PadMin int
 
 	mu    sync.Mutex
 	cond  *sync.Cond
@@ -146,6 +152,7 @@ func (t *Tap) InjectViews(proto tcpip.NetworkProtocolNumber, remote tcpip.LinkAd
 	if d == nil {
 		return
 	}
+	chunks = t.pad(proto, chunks)
 	views := make([]buffer.View, 0, len(chunks))
 	size := 0
 	for _, c := range chunks {
@@ -153,6 +160,31 @@ func (t *Tap) InjectViews(proto tcpip.NetworkProtocolNumber, remote tcpip.LinkAd
 		size += len(c)
 	}
 	d.DeliverNetworkPacket(t, remote, t.Addr, proto, buffer.NewVectorisedView(size, views))
+}
+
+// pad appends the link's trailing bytes to the last chunk (see PadIn).
+func (t *Tap) pad(proto tcpip.NetworkProtocolNumber, chunks [][]byte) [][]byte {
+	if (t.PadIn <= 0 && t.PadMin <= 0) || len(chunks) == 0 || (proto != 0x0800 && proto != 0x86dd) {
+		return chunks
+	}
+	total := 0
+	for _, c := range chunks {
+		total += len(c)
+	}
+	n := t.PadIn
+	if t.PadMin > 0 {
+		n = t.PadMin - total
+	}
+	if n <= 0 {
+		return chunks
+	}
+	out := append([][]byte(nil), chunks...)
+	last := append([]byte(nil), out[len(out)-1]...)
+	for i := 0; i < n; i++ {
+		last = append(last, 0xee)
+	}
+	out[len(out)-1] = last
+	return out
 }
 
 // Split cuts b at the given offsets (ascending, within bounds; others ignored).
